@@ -22,10 +22,10 @@ CONSTANTS MaxEnt,        \* entities per document, the feature included
 
 \* ---------------------------------------------------------------- layouts
 Kinds == {"rule", "scenario", "outline", "row"}
+\* scenario-less entities are part of the family: a rule without scenarios (followed by another rule or by the end
+\* of the document) and an outline without rows (no Examples at all, or a heading-only Examples table: et = 2)
 ValidKinds(s) == \A i \in DOMAIN s :
-   /\ s[i] = "row"     => i > 1 /\ s[i - 1] \in {"outline", "row"}
-   /\ s[i] = "outline" => i < Len(s) /\ s[i + 1] = "row"
-   /\ s[i] = "rule"    => i < Len(s) /\ s[i + 1] \in {"scenario", "outline"}
+   s[i] = "row" => i > 1 /\ s[i - 1] \in {"outline", "row"}
 KindSeqs == UNION {{s \in [1..n -> Kinds] : ValidKinds(s)} : n \in 1..(MaxEnt - 1)}
 \* gaps: filler lines before entity i = prof[i]; body lines: description/background of a feature or rule
 \* = prof[i+1], steps of a scenario/outline = 1 or 2
@@ -35,19 +35,25 @@ BodyOf(prof, i, k) == CASE k \in {"feature", "rule"}     -> prof[i + 1]
 Choices(ks, prof, i) ==    \* items for position i + 1 (kind ks[i])
    LET k == ks[i]
        lastrow == k = "row" /\ (i = Len(ks) \/ ks[i + 1] # "row")
+       rowless == k = "outline" /\ (i = Len(ks) \/ ks[i + 1] # "row")
    IN
-   {Item(k, prof[i + 1], IF et = 2 THEN 2 ELSE BodyOf(prof, i + 1, k), tg, nt, et) :
+   {Item(k, prof[i + 1], BodyOf(prof, i + 1, k) + (IF et = 2 THEN 2 ELSE 0), tg, nt, et) :
       tg \in (CASE k = "scenario" -> STags [] k = "outline" -> OTags [] OTHER -> {"none"}),
       nt \in (IF k # "row" THEN {FALSE} ELSE IF ks[i - 1] = "outline" THEN {TRUE} ELSE {TRUE, FALSE}),
-      et \in (IF k # "row" THEN {0} ELSE {0, 1} \cup (IF lastrow THEN {2} ELSE {}))}
+      et \in (CASE k = "row" -> {0, 1} \cup (IF lastrow THEN {2} ELSE {})
+                [] rowless   -> {0, 2}
+                [] OTHER     -> {0})}
 RECURSIVE Ext(_,_,_)
 Ext(ks, prof, i) == IF i = 0 THEN {<<Item("feature", prof[1], BodyOf(prof, 1, "feature"), "none", FALSE, 0)>>}
                     ELSE {Append(p, it) : p \in Ext(ks, prof, i - 1), it \in Choices(ks, prof, i)}
-\* a heading-only table in front needs a row that opens a table; specials (tagged entities + heading-only tables)
-\* are capped per document
+\* a heading-only table in front needs a row that opens a table; specials (tagged entities, heading-only tables,
+\* scenario-less rules and outlines) are capped per document
+Special(x, i) == \/ x[i].et # 0
+                 \/ x[i].k = "outline" /\ (i = Len(x) \/ x[i + 1].k # "row")
+                 \/ x[i].k = "rule" /\ (i = Len(x) \/ x[i + 1].k = "rule")
 LayoutsOf(ks, prof) == {x \in Ext(ks, prof, Len(ks)) :
    /\ \A i \in DOMAIN x : x[i].et = 1 => x[i].nt
-   /\ Cardinality({i \in DOMAIN x : x[i].tag # "none"}) + Cardinality({i \in DOMAIN x : x[i].et # 0}) <= MaxTagged[Len(x)]}
+   /\ Cardinality({i \in DOMAIN x : x[i].tag # "none"}) + Cardinality({i \in DOMAIN x : Special(x, i)}) <= MaxTagged[Len(x)]}
 
 \* ---------------------------------------------------------------- list files, name options
 ListCases == UNION {[1..n -> ListPool] : n \in 1..MaxList}
